@@ -83,8 +83,9 @@ func runC04Enum(src sim.Source, o Opts, res *Result) {
 	// enumerate every ending at every position; commit last (it changes the committed state)
 	var variants []txnVariant
 	n := len(prog.Ops)
-	for _, end := range []string{"abort", "error", "panic", "goexit"} {
-		if end == "error" && !managed {
+	// (selfabort: the function of a managed transaction aborts it itself and then returns an error)
+	for _, end := range []string{"abort", "error", "panic", "goexit", "selfabort"} {
+		if (end == "error" || end == "selfabort") && !managed {
 			continue
 		}
 		for k := 0; k <= n; k++ {
